@@ -14,8 +14,10 @@ import time
 ROOT = os.path.dirname(os.path.dirname(os.path.dirname(os.path.abspath(__file__))))
 SPEC = os.path.join(ROOT, "spec")
 HARNESS = os.path.join(ROOT, "harness")
-WORK = os.path.join(ROOT, "work")
-EVID = os.path.join(ROOT, "evidence")
+# PV_WORK / PV_EVIDENCE: only for running several seeds side by side while developing; the
+# registered commands use the defaults
+WORK = os.environ.get("PV_WORK") or os.path.join(ROOT, "work")
+EVID = os.environ.get("PV_EVIDENCE") or os.path.join(ROOT, "evidence")
 PVH = os.path.join(HARNESS, "target", "debug", "pvh")
 
 
@@ -98,6 +100,8 @@ def tlc_trace(trace, metadir, timeout=1500, spec="Trace"):
     for line in out.splitlines():
         line = line.strip()
         if line.startswith('"MONJ ') or line.startswith('"ENDJ '):
+            # Print(.., FALSE) of a rejection appends the value: `"ENDJ {..}"  FALSE`
+            line = re.sub(r'"\s+(TRUE|FALSE)$', '"', line)
             try:
                 inner = json.loads(line)
             except Exception:
@@ -112,6 +116,14 @@ def tlc_trace(trace, metadir, timeout=1500, spec="Trace"):
             res["states"] = int(m.group(1))
             res["distinct"] = int(m.group(2))
     if res["accepted"] is None:
+        if res["mons"]:
+            # monitors already fired and TLC then aborted (e.g. an answer of the code under test made
+            # an oracle set explode): the hits stand, the rest of the trace counts as not validated
+            m = re.search(r"The exception was a ([^\n]*)\n: ([^\n]*)", out)
+            res["accepted"] = False
+            res["matched"] = max(h.get("i", 0) for h in res["mons"])
+            res["unmatched"] = "TLC aborted after the monitor hits: " + (m.group(2) if m else "no verdict line")
+            return res
         raise ToolError("TLC gave no verdict on %s (rc=%s):\n%s" % (trace, rc, out[-3000:]))
     return res
 
@@ -504,6 +516,16 @@ C02_ADOPT = {"C03.Complete": "C02.SolutionLost", "C04.UnsatRight": "C02.UnsatRig
 
 
 def check_C02(res, tier, seed):
+    # design level: the engine actions of Engine.tla (the ones Trace.tla binds to the code) driven
+    # nondeterministically over every interleaving of decisions, propagations of any strength,
+    # conflicts, 1-UIP learning and backjumps on a small model: learned nogoods are implied, answers
+    # are right, every run terminates - PROVIDED every explanation is correct (C17); with one
+    # too-weak explanation admitted the same invariants must break
+    mc_part(res, "MC_Engine", "MC_Engine_pigeon", label="C02.MC.Engine", timeout=1200)
+    mc_part(res, "MC_Engine", "MC_Engine_unsound", expect_ok=False, timeout=1200)
+    if tier == "thorough":
+        mc_part(res, "MC_Engine", "MC_Engine", label="C02.MC.Engine", timeout=3000)
+        mc_part(res, "MC_Engine", "MC_Engine_pigeon_restart", label="C02.MC.Engine", timeout=3000)
     tv_part(res, ["solve"], n(tier, 400, 4000), seed + 1000, tier, "solve", adopt=C02_ADOPT)
     tv_part(res, ["clauses", "configs"], n(tier, 200, 2000), seed + 1000, tier, "search", adopt=C02_ADOPT,
             min_events={"Learned": 50})
@@ -565,6 +587,10 @@ def check_C07(res, tier, seed):
              "C10.NoHang": "C07.Termination", "C10.NoPanic": "C07.Panic"}
     out, counts = tv_part(res, ["configs"], n(tier, 160, 1600), seed, tier, "configs", adopt=adopt,
                           min_events={"Learned": 50, "Restart": 5, "NogoodDeleted": 3, "Flip": 5})
+    # constant clean-up of the nogood database next to a half-reified element (lazy reasons wrapped
+    # by a reification)
+    tv_part(res, ["dbclean"], n(tier, 80, 800), seed, tier, "dbclean", adopt=adopt,
+            min_events={"IterSolution": 1000})
     res.cov["config_axes_exercised"] = {k: counts.get(k, 0) for k in
                                         ("Learned", "Restart", "NogoodDeleted", "NogoodAdded", "Flip", "Minimise")}
 
@@ -754,9 +780,21 @@ def check_C17(res, tier, seed):
     tv_part(res, ["assume", "history", "optimise", "configs"], n(tier, 60, 600), seed + 17, tier, "multi")
 
 
+C18_ADOPT = {"C01.Total": "C18.AllFixed", "C02.NoTermination": "C18.SearchTerminates",
+             "C10.NoHang": "C18.SearchTerminates", "C10.NoPanic": "C18.Panic"}
+
+
 def check_C18(res, tier, seed):
-    tv_part(res, ["solve"], n(tier, 500, 5000), seed + 18, tier, "solve", min_events={"Decide": 50})
-    tv_part(res, ["clauses", "configs"], n(tier, 150, 1500), seed + 18, tier, "search")
+    tv_part(res, ["solve"], n(tier, 500, 5000), seed + 18, tier, "solve", min_events={"Decide": 50},
+            adopt=C18_ADOPT)
+    # (no termination claim here: the configurations include the restart-after-every-conflict plus
+    # tiny-database live-lock F17, which is not about branchers)
+    tv_part(res, ["clauses", "configs"], n(tier, 150, 1500), seed + 18, tier, "search",
+            adopt={k: v for k, v in C18_ADOPT.items() if v != "C18.SearchTerminates"})
+    # the 11 x 14 selector grid, plain / alternating / dynamic, on models with free variables in front
+    # of a conflict-rich core, with eager restarts (4 x 154 combinations; quick: one full round)
+    rec = lambda d: record(["branchers"], seed + 18, tier, n(tier, 616, 6160), d, start=(seed % 7) * 616)
+    tv_part(res, [], 0, seed, tier, "branchers", adopt=C18_ADOPT, recorder=rec, min_events={"Decide": 1500})
 
 
 CHECKS = {
@@ -818,8 +856,8 @@ def run_replay(res, path, tier, seed, level, t0):
 
 
 def selftest():
-    log("selftest: not implemented yet")
-    return 0
+    import selftest as st
+    return st.run()
 
 
 # ====================================================================== command-line solver (C13, C14, C15)
@@ -1330,6 +1368,36 @@ def check_C20(res, tier, seed):
         p = os.path.join(fd, "m%d.fzn" % i)
         open(p, "w").write(text)
         twice(p, ["-s", "-a", "-r", str(rng.randint(0, 99))] + rng.choice([[], ["-f"]]), proof=rng.random() < 0.5)
+        os.remove(p)
+    # (3) larger inputs: reproducibility needs no oracle, and iteration-order effects need ties (many
+    #     equal weights, many Boolean decisions) to show within two runs
+    for i in range(n(tier, 12, 120)):
+        nv = rng.randint(12, 24)
+        hard = [[rng.choice([1, -1]) * rng.randint(1, nv) for _ in range(3)] for _ in range(rng.randint(10, 30))]
+        soft = [{"w": rng.choice([1, 1, 1, 2]), "lits": [rng.choice([1, -1]) * rng.randint(1, nv)
+                                                       for _ in range(rng.randint(1, 2))]} for _ in range(rng.randint(15, 40))]
+        p = os.path.join(fd, "W%d.wcnf" % i)
+        open(p, "w").write(wcnf_text(nv, hard, soft, rng))
+        twice(p, ["-s", "-r", str(rng.randint(0, 99)), "--upper-bound-encoding",
+                  rng.choice(["generalized-totalizer", "generalized-totalizer", "cardinality-network"])
+                  if all(s_["w"] == 1 for s_ in soft) and len({tuple(s_["lits"]) for s_ in soft if len(s_["lits"]) == 1}) == len([1 for s_ in soft if len(s_["lits"]) == 1])
+                  else "generalized-totalizer"])
+        os.remove(p)
+        nb = rng.randint(8, 14)
+        decls = ["var bool: b%d :: output_var;" % k for k in range(nb)]
+        cons = []
+        for _ in range(rng.randint(3, 8)):
+            pos = rng.sample(range(nb), rng.randint(1, 3))
+            neg = rng.sample(range(nb), rng.randint(0, 2))
+            cons.append("constraint bool_clause([%s], [%s]);" % (", ".join("b%d" % k for k in pos), ", ".join("b%d" % k for k in neg)))
+        order = list(range(nb))
+        rng.shuffle(order)
+        solve = "solve :: bool_search([%s], %s, %s, complete) satisfy;" % (
+            ", ".join("b%d" % k for k in order), rng.choice(["input_order", "first_fail"]),
+            rng.choice(["indomain_random", "indomain_random", "indomain_min", "indomain_max"]))
+        p = os.path.join(fd, "B%d.fzn" % i)
+        open(p, "w").write("\n".join(decls + cons + [solve]) + "\n")
+        twice(p, ["-s", "-r", str(rng.randint(0, 99))] + rng.choice([[], ["-a"]]))
         os.remove(p)
     res.cov["traces_validated_against_impl"] += 2 * ncli
     res.cov["evaluations"] += ncli
